@@ -429,6 +429,11 @@ type FuncSpec struct {
 	ResultIs  string   // name of an uninterpreted spec function that denotes this (deterministic, effect-free) function's result
 	Models    []Clause // limits of what an assumed contract models: a call outside them is undecided, not a violation
 	Logged    bool // calls are recorded in the ghost event log (events/evis/evarg/evres)
+	// AtCalls: clauses of the caller about every call of a named callee made
+	// by this function, over arg0.. and result0..: `prove` before the call
+	// (an obligation), `assume` after it (a listed assumption).  Used for
+	// resource invariants of generic containers (what a pool hands out).
+	AtCalls []AtCall
 	Residual  bool // interface-method contract used only for dynamic types outside the module
 	Params    []ParamDecl
 	Results   []ParamDecl
@@ -523,7 +528,14 @@ func newContractSet() *ContractSet {
 var clauseKeywords = map[string]bool{
 	"requires": true, "ensures": true, "modifies": true, "loop": true, "invariant": true,
 	"decreases": true, "func": true, "extern": true, "spec": true, "lemma": true, "pure": true,
-	"inline": true, "panics": true, "trusted": true, "induction": true, "use": true, "def": true, "call": true, "apply": true, "apply_head": true, "apply_exit": true, "opaque": true, "embedded": true, "guarded": true, "callback": true, "monitor": true, "check_at_store": true, "assume_invariant": true, "residual": true, "result_is": true, "from": true, "models": true, "hidden": true, "reveal": true, "logged": true, "may_panic": true, "recovers": true,
+	"inline": true, "panics": true, "trusted": true, "induction": true, "use": true, "def": true, "call": true, "apply": true, "apply_head": true, "apply_exit": true, "opaque": true, "embedded": true, "guarded": true, "callback": true, "monitor": true, "check_at_store": true, "assume_invariant": true, "residual": true, "result_is": true, "from": true, "models": true, "hidden": true, "reveal": true, "logged": true, "may_panic": true, "recovers": true, "at_call": true,
+}
+
+// AtCall is one at_call clause.
+type AtCall struct {
+	Callee string
+	Assume bool
+	Clause Clause
 }
 
 // parseContractText parses the body of one or more /*@ ... @*/ blocks (already
@@ -825,6 +837,23 @@ func (cs *ContractSet) parseContractText(text, pkgPath, file string) error {
 		case "result_is":
 			if curF != nil {
 				curF.ResultIs = strings.TrimSpace(rest)
+			}
+		case "at_call":
+			if curF == nil {
+				return fmt.Errorf("%s: at_call outside a function contract", file)
+			}
+			{
+				callee, r2 := splitKW(strings.TrimSpace(rest))
+				mode, r3 := splitKW(strings.TrimSpace(r2))
+				if mode != "prove" && mode != "assume" {
+					return fmt.Errorf("%s: at_call <callee> prove|assume <label>: <expr>", file)
+				}
+				label, src := splitLabel(r3)
+				e, err := parseExpr(src)
+				if err != nil {
+					return fmt.Errorf("%s: at_call %s: %v", file, callee, err)
+				}
+				curF.AtCalls = append(curF.AtCalls, AtCall{Callee: callee, Assume: mode == "assume", Clause: Clause{Label: label, Src: src, E: e}})
 			}
 		case "from":
 			// from <callee> nothing | from <callee> only l1, l2: which
